@@ -1,0 +1,39 @@
+//! Verification hooks (compiled only with `--cfg salsa_rs_salsa_verif`).
+//!
+//! Read-only access to internal state for the external verification harness.
+
+use crate::Database;
+
+/// Textual dump of the runtime stamps and of every ingredient's internal state:
+/// revisions, cancellation count, input field stamps, memo headers (stamps, origin,
+/// edges, cycle data), eviction order.
+pub fn dump_state(db: &dyn Database) -> Vec<String> {
+    let zalsa = db.zalsa();
+    let runtime = zalsa.runtime();
+    let mut out = Vec::new();
+    out.push(format!(
+        "runtime revisions=[{},{},{}] ccount={}",
+        runtime
+            .last_changed_revision(crate::Durability::LOW)
+            .as_usize(),
+        runtime
+            .last_changed_revision(crate::Durability::MEDIUM)
+            .as_usize(),
+        runtime
+            .last_changed_revision(crate::Durability::HIGH)
+            .as_usize(),
+        runtime.cancellation_count()
+    ));
+    for ingredient in zalsa.ingredients() {
+        ingredient.verif_dump(zalsa, &mut out);
+    }
+    out
+}
+
+/// The debug name and index of every registered ingredient.
+pub fn ingredient_names(db: &dyn Database) -> Vec<(u32, &'static str)> {
+    db.zalsa()
+        .ingredients()
+        .map(|ingredient| (ingredient.ingredient_index().as_u32(), ingredient.debug_name()))
+        .collect()
+}
